@@ -121,6 +121,29 @@ func (w *World) exec(i int, s *Step) {
 		if p != nil {
 			p.Connect()
 		}
+	case "par":
+		// release several operations together: none of them runs before all are started; with the
+		// scheduling gate on, the simulator then interleaves them at every lock boundary
+		e.Sim.HoldSettle++
+		for k := range s.Par {
+			w.exec(i, &s.Par[k])
+		}
+		e.Sim.HoldSettle--
+		e.probe("concurrent_step")
+	case "metrics":
+		w.Go("Metrics()", func() { w.DUT.Srv.Metrics() })
+	case "dump_api":
+		if p != nil {
+			w.Go(fmt.Sprintf("GetRIBIn/GetRIBOut(%s)", p.Cfg.Name), func() {
+				if in := w.DUT.Srv.GetRIBIn(w.DUT.VRF, p.Cfg.bnetAddr(), 1, 1); in != nil {
+					in.Dump()
+				}
+				if out := w.DUT.Srv.GetRIBOut(w.DUT.VRF, p.Cfg.bnetAddr(), 1, 1); out != nil {
+					out.Dump()
+				}
+				w.DUT.RIB4.Dump()
+			})
+		}
 	case "peer_auto":
 		if p != nil {
 			p.AutoOpen = s.On
@@ -134,6 +157,8 @@ func (w *World) exec(i int, s *Step) {
 			if s.Open != nil {
 				o := *s.Open
 				p.OpenOverride = &o
+			} else if p.Cfg.ManualOpen {
+				p.OpenOverride = nil // hand-scripted peers send exactly what the step says
 			}
 			p.Send(EncodeOpen(p.openSpec()))
 			if p.state == psIdle || p.state == psOpenSent {
@@ -173,6 +198,10 @@ func (w *World) exec(i int, s *Step) {
 	case "keepalive":
 		if p != nil && p.conn != nil {
 			p.Send(EncodeKeepalive())
+			if p.Cfg.ManualOpen && p.Established() && !p.Silent {
+				p.kaGen++
+				p.startKeepalives(p.conn)
+			}
 		}
 	case "peer_close":
 		if p != nil {
